@@ -213,25 +213,25 @@ type RoundSnap struct {
 	Sources    []string
 }
 type Snapshot struct {
-	Height    int64
-	Tenants   []TenantSnap
-	Utxrs     []UtxrSnap
-	Idx       [][3]string // (tid, reqhex, uid or "none") for every request id ever used: raw index presence
-	Lookup    [][3]string // (tid, reqhex, uid or "none") through GetUTXRByRequestId
-	Bals      [][3]string // (addr dec, asset, amount)
-	Round     RoundSnap
-	Prevotes  [][2]string // (val addr dec, hash)
-	Votes     []VoteSnap
-	Deleg     [][2]string
-	Miss      [][2]string
-	Vals      []ValSnap
-	Pool      [][2]string // denom, amount
-	OwedDelta [][2]string // denom, Dec raw delta of (outstanding + community pool) over this end-block
-	OwedVal   [][3]string // validator, denom, Dec raw delta of its outstanding rewards over this end-block
-	OwedComm  [][2]string // denom, Dec raw delta of the community pool over this end-block
-	BooksMixed bool       // x/staking removed a validator in this end-block: the distribution hook moved its rewards in the same call
-	Invariant string      // first broken crisis invariant, "" if all hold
-	AppHash   string
+	Height     int64
+	Tenants    []TenantSnap
+	Utxrs      []UtxrSnap
+	Idx        [][3]string // (tid, reqhex, uid or "none") for every request id ever used: raw index presence
+	Lookup     [][3]string // (tid, reqhex, uid or "none") through GetUTXRByRequestId
+	Bals       [][3]string // (addr dec, asset, amount)
+	Round      RoundSnap
+	Prevotes   [][2]string // (val addr dec, hash)
+	Votes      []VoteSnap
+	Deleg      [][2]string
+	Miss       [][2]string
+	Vals       []ValSnap
+	Pool       [][2]string // denom, amount
+	OwedDelta  [][2]string // denom, Dec raw delta of (outstanding + community pool) over this end-block
+	OwedVal    [][3]string // validator, denom, Dec raw delta of its outstanding rewards over this end-block
+	OwedComm   [][2]string // denom, Dec raw delta of the community pool over this end-block
+	BooksMixed bool        // x/staking removed a validator in this end-block: the distribution hook moved its rewards in the same call
+	Invariant  string      // first broken crisis invariant, "" if all hold
+	AppHash    string
 }
 type VoteSnap struct {
 	Val *big.Int
@@ -783,8 +783,8 @@ func (e *Exec) Run() []Obs {
 type RoundtripObs struct {
 	Class      string // ok | panic (InitChain of the fresh application panicked) | rejected (export failed)
 	Log        string
-	Snap       *Snapshot // module state of the fresh application right after InitChain
-	SameExport bool      // both modules' ExportGenesis JSON identical before and after
+	Snap       *Snapshot  // module state of the fresh application right after InitChain
+	SameExport bool       // both modules' ExportGenesis JSON identical before and after
 	Probes     []ProbeObs // oracle transactions delivered in the first block of the restarted chain
 }
 
@@ -882,6 +882,98 @@ func (e *Exec) Roundtrip() (ro *RoundtripObs) {
 	return ro
 }
 
+// queryDisagreement: 0 = the query server agrees with the store; 1 paged record list, 2 by-request-id lookup,
+// 3 tenant list, 4 single tenant / treasury balance
+func (e *Exec) queryDisagreement(ctx sdk.Context, s *Snapshot) (kind int) {
+	defer func() {
+		if r := recover(); r != nil {
+			kind = 9
+		}
+	}()
+	c := e.C
+	sk := c.App.SettlementKeeper
+	goctx := sdk.WrapSDKContext(ctx)
+	// tenants, paged
+	var tenants []settlementtypes.TenantWithTreasury
+	var key []byte
+	for page := 0; page < 1000; page++ {
+		res, err := sk.Tenants(goctx, &settlementtypes.QueryTenantsRequest{Pagination: &query.PageRequest{Key: key, Limit: 2}})
+		if err != nil {
+			return 3
+		}
+		tenants = append(tenants, res.Tenants...)
+		if res.Pagination == nil || len(res.Pagination.NextKey) == 0 {
+			break
+		}
+		key = res.Pagination.NextKey
+	}
+	stored := sk.GetAllTenants(ctx)
+	if len(tenants) != len(stored) {
+		return 3
+	}
+	for i, t := range stored {
+		q := tenants[i].Tenant
+		if q == nil || q.Id != t.Id || q.Denom != t.Denom || q.PayoutPeriod != t.PayoutPeriod || q.PayoutMethod != t.PayoutMethod ||
+			strings.Join(q.Admins, ",") != strings.Join(t.Admins, ",") {
+			return 3
+		}
+		one, err := sk.Tenant(goctx, &settlementtypes.QueryTenantRequest{TenantId: t.Id})
+		if err != nil || one.Tenant.Tenant == nil || one.Tenant.Tenant.Id != t.Id || one.Tenant.Treasury == nil ||
+			one.Tenant.Treasury.Address != settlementtypes.GetTenantTreasuryAccount(t.Id).String() {
+			return 4
+		}
+		if t.PayoutMethod == settlementtypes.PayoutMethod_Native {
+			bal := c.App.BankKeeper.SpendableCoins(ctx, settlementtypes.GetTenantTreasuryAccount(t.Id)).AmountOf(t.Denom)
+			if one.Tenant.Treasury.Balance == nil || !one.Tenant.Treasury.Balance.Amount.Equal(bal) || one.Tenant.Treasury.Balance.Denom != t.Denom {
+				return 4
+			}
+		}
+		// the tenant's records, paged
+		var listed []settlementtypes.UTXR
+		key = nil
+		for page := 0; page < 100000; page++ {
+			res, err := sk.UTXRs(goctx, &settlementtypes.QueryUTXRsRequest{TenantId: t.Id, Pagination: &query.PageRequest{Key: key, Limit: 3}})
+			if err != nil {
+				return 1
+			}
+			listed = append(listed, res.Utxrs...)
+			if res.Pagination == nil || len(res.Pagination.NextKey) == 0 {
+				break
+			}
+			key = res.Pagination.NextKey
+		}
+		var own []settlementtypes.UTXR
+		for _, u := range sk.GetAllUTXRWithTenantAndID(ctx) {
+			if u.TenantId == t.Id {
+				own = append(own, u.Utxr)
+			}
+		}
+		if len(listed) != len(own) {
+			return 1
+		}
+		for j := range own {
+			if own[j].String() != listed[j].String() {
+				return 1
+			}
+		}
+	}
+	// by-request-id lookups through the query server
+	for _, rq := range e.reqList {
+		var tid uint64
+		fmt.Sscan(rq[0], &tid)
+		req, _ := hex.DecodeString(rq[1])
+		direct := sk.GetUTXRByRequestId(ctx, tid, string(req))
+		res, err := sk.UTXR(goctx, &settlementtypes.QueryUTXRRRequest{TenantId: tid, RequestId: string(req)})
+		if (direct == nil) != (err != nil) {
+			return 2
+		}
+		if direct != nil && direct.String() != res.Utxr.String() {
+			return 2
+		}
+	}
+	return 0
+}
+
 func unq(s string) string { return strings.Trim(s, "\"") }
 
 func methodCode(m string) int {
@@ -954,6 +1046,16 @@ func (e *Exec) snapshot() *Snapshot {
 			lv = fmt.Sprint(sdk.BigEndianToUint64(bz))
 		}
 		s.Lookup = append(s.Lookup, [3]string{rq[0], rq[1], lv})
+	}
+	// the gRPC query server (keeper/grpc_query.go) must describe the same records and tenants as the store: paged list
+	// (3 per page, following NextKey), by-request-id lookup of every id ever used, tenant list (2 per page) and single
+	// tenants.  A disagreement is reported as a lookup of the reserved request id ff ff <kind> that "finds" something:
+	// the property checkers read it as "lookup and pending set disagree" (C12 clause 34), the model never has it.
+	if qd := e.queryDisagreement(ctx, s); qd != 0 {
+		s.Lookup = append(s.Lookup, [3]string{"1", fmt.Sprintf("ffff%02x", qd), "0"})
+		if os.Getenv("VERIF_DEBUG") != "" {
+			fmt.Fprintf(os.Stderr, "QUERY-DISAGREEMENT kind=%d height=%d\n", qd, c.Height)
+		}
 	}
 	for _, tr := range e.trackLst {
 		a, _ := new(big.Int).SetString(tr[0], 10)
